@@ -53,6 +53,9 @@ def collide_program(r):
         return {'k': 'interface', 'name': name, 'comment': None, 'main': False, 'targets': ['+cpp'],
                 'members': [{'k': 'method', 'name': 'm_' + tag, 'comment': None, 'static': False, 'const': False, 'async': False, 'params': [], 'throws': None, 'ret': None}]}
     nss = r.sample(['a', 'b', 'a.b', 'a_b', 'c.d'], len(variants))
+    if len(variants) == 2 and variants[0] == variants[1] and r.random() < 0.35:
+        nss = [nss[0], nss[0]]          # the SAME qualified name twice (kinds may differ): refused with a diagnostic, never two writes to one path
+        one_kind = None
     items = []
     both_base = r.random() < 0.4
     for i, (v, ns) in enumerate(zip(variants, nss)):
@@ -127,6 +130,8 @@ def options(r):
 
 def classify(d1, d2, gen):
     same_name = d1['name'] == d2['name']
+    if same_name and d1['ns'] == d2['ns']:
+        return 'same-qualified-name'      # two declarations with ONE qualified name must be refused by the front end, whatever their kinds
     if same_name and d1['ns'] != d2['ns']:
         return 'objc-namespace-name-glued' if gen == 'objc' else 'namespace-not-in-filename'
     if d1['name'].lower().replace('_', '') == d2['name'].lower().replace('_', ''):
